@@ -296,3 +296,7 @@ mod bench {
     //     });
     // }
 }
+
+#[cfg(kani)]
+#[path = "/verif/harness/may_queue/mpsc_list.rs"]
+mod verif_kani;
